@@ -452,6 +452,12 @@ def evidence(tier):
             'rulesets': 'seeded rule sets of 1-6 rules incl. always-allow '
                         'spellings',
         },
+        'bounds_more': {'http': '5 http(s) leaves (with user-info, query, '
+                        'fragment) x 4 placements: requests made by T and by '
+                        'parse(print(T)) compared on a recording stub',
+                        'equal': '%d pairs of near-identical check strings: '
+                        'equal defaults print alike and decide alike' % len(
+                            EQ_PAIRS)},
         'symbols': ['t<i>, l<i>: token kind / leaf kind', 'leaf.<n>: Bool',
                     'role.<r>: Bool'],
         'stubs': ['_parser._tokenize_re -> SymRegex', 'tokens harness: '
